@@ -306,6 +306,14 @@ def run(ctx):
                "not used again); reusable_storage_mtsafe is neither copyable nor movable; placement_alloc, "
                "reusable_buffer_storage and stack_storage objects only refer to memory: scenarios alternately create through "
                "a copy of the object (copy ASSIGNMENT of placement_alloc to another buffer is not exercised)")
+    ctx.assume("stack_storage objects are also prepared ahead of their use (constructed from the shared state and given "
+               "the alloca block they ask for; up to 2, at most one frame before the first preparation, at most 3 frames "
+               "in such a history) and used later, repeatedly once their block is free again; concurrent preparation "
+               "from two threads (scheduler::start on one scheduler) is not exercised")
+    ctx.assume("error path: the factory of the attached object throws during one creation per history (at most one frame "
+               "before it, at most 2 in such a history; plain with_allocator coroutines only -- callback_await_coro is "
+               "noexcept, a throwing allocation there terminates the process by design); other exceptions (operator new "
+               "failing, vector::resize failing) are not injected")
     ctx.assume("the owner of reusable_buffer_storage's vector uses it only while no frame is alive (documented): resize to "
                "a frame-class size, shrink_to_fit, clear+shrink_to_fit, move out, swap with a fresh vector; std::vector "
                "reallocation (new block, then old released; exact size when growing by more than a factor 2) is libstdc++'s")
